@@ -63,9 +63,10 @@ OPTS_CONTENT = {"opts": {"optimize_with_safe_zero_edges": True}, "opts_empty": {
 #  canonical values / snapshots
 # ----------------------------------------------------------------------------------------------------------------------
 def canon(o):
-    """deep, comparable copy; graphs by nodes, edges and attribute dicts"""
+    """deep, comparable copy; graphs by nodes, edges, attribute dicts and whether the object still accepts modifications (nx.freeze replaces
+    the mutators of the instance: the caller can no longer extend a graph it passed in)"""
     if isinstance(o, nx.Graph):
-        return ("graph", canon(dict(o.graph)), sorted(((repr(n), canon(a)) for n, a in o.nodes(data=True)), key=repr),
+        return ("graph", ("frozen", bool(nx.is_frozen(o))), canon(dict(o.graph)), sorted(((repr(n), canon(a)) for n, a in o.nodes(data=True)), key=repr),
                 sorted(((repr(u), repr(v), canon(a)) for u, v, a in o.edges(data=True)), key=repr))
     if isinstance(o, dict):
         return ("dict", sorted(((repr(k), canon(v)) for k, v in o.items()), key=repr))
@@ -369,6 +370,10 @@ def mutate_in_place(G, origin, arm=None):
         G.add_edge("m_in", "m_out", flow=2)
 
 
+class CallerGraphLocked(Exception):
+    pass
+
+
 def mutation_history(A, B, base, names, origin, arm=None):
     """model A on G; the caller then changes G in place; model B on the SAME object must equal model B on a freshly built equal graph"""
     import copy
@@ -377,7 +382,11 @@ def mutation_history(A, B, base, names, origin, arm=None):
     if origin == "node":
         sh = node_shared(sh)
     run_model(A, kwargs_for(A, "plain", sh, base, origin))
-    mutate_in_place(sh["G"], origin, arm)
+    try:
+        mutate_in_place(sh["G"], origin, arm)
+    except nx.NetworkXError as e:
+        # the caller can no longer extend its own graph: the first model froze (or otherwise locked) the object it was given
+        raise CallerGraphLocked("%s: %s" % (type(e).__name__, e))
     after, _ = run_model(B, kwargs_for(B, "plain", sh, base, origin))
     reset_defaults()
     fresh = make_shared("none", base, names)
@@ -394,7 +403,11 @@ def check_mutation(case):
     if case.get("arm"):
         r = dict(zip(graphs.NAMES1, names))
         arm = (r[BASES[base]["mid"][0]], r[BASES[base]["edges"][-1][1]])
-    after, ref = mutation_history(A, B, base, names, origin, arm)
+    try:
+        after, ref = mutation_history(A, B, base, names, origin, arm)
+    except CallerGraphLocked as e:
+        return dict(ok=False, nontrivial=True, fingerprint="frame: %s modifies the caller's graph (the object no longer accepts the caller's own changes)" % A,
+                    what="%s on %s graph (%s weights): afterwards add_edge / add_node on the caller's graph raises %s" % (A, base, origin, e))
     if after == ref:
         return dict(ok=True, nontrivial=True, detail=dict(result=str(ref)[:200]))
     again = [mutation_history(A, B, base, names, origin, arm) for _ in range(2)]
